@@ -103,6 +103,25 @@ def _stores(nodes):
     return out
 
 
+def _own_break(loop, brk):
+    """`brk` leaves `loop` itself (it is not inside a nested loop)"""
+    def find(body):
+        for st in body:
+            if st is brk:
+                return True
+            if isinstance(st, (ast.For, ast.AsyncFor, ast.While, ast.FunctionDef, ast.AsyncFunctionDef, ast.ClassDef)):
+                continue
+            for fld in ('body', 'orelse', 'finalbody'):
+                sub = getattr(st, fld, None)
+                if isinstance(sub, list) and sub and isinstance(sub[0], ast.stmt) and find(sub):
+                    return True
+            for h in getattr(st, 'handlers', []) or []:
+                if find(h.body):
+                    return True
+        return False
+    return find(loop.body)
+
+
 def _havoc(env, names, tag):
     env = dict(env)
     for n in names:
@@ -307,8 +326,16 @@ def paths(body, env=None, limit=400):
                 pass                     # falling off the loop body: back to the head
             # exits from inside the body that leave the function stay; continue / break are the loop's own business
             kept = [d for d in done[saved:] if d.exit in ('return', 'raise')]
+            breaks = [d for d in done[saved:] if d.exit == 'break' and _own_break(st, d.node)]
             del done[saved:]
             done.extend(kept)
+            if isinstance(st, ast.While) and isinstance(st.test, ast.Constant) and st.test.value is True and not st.orelse and 1 <= len(breaks) <= 4:
+                # an endless loop is left only through its breaks: what follows it follows the last iteration - started from
+                # arbitrary loop-carried values - up to one of them, with the decisions that led there
+                for d in breaks:
+                    d.exit, d.node = None, None
+                    yield from run(rest, d)
+                return
             after = p.fork()
             after.env = _havoc(p.env, names, tag)
             for r in run(st.orelse, after):
